@@ -143,8 +143,8 @@ def run(tier, seed):
             has_cert = cert_from in ('metadata', 'given')
             # ---- C17, IdP side: nothing of an assertion that was to be encrypted is readable in the emitted text
             if has_cert and enc_ass:
-                leaked = [s for s in [SUBJECT] + [v for vals in IDENTITY.values() for v in vals] + list(IDENTITY)
-                          if _occurs(s, xml)]
+                leaked = [s for s in [SUBJECT] + [v for vals in IDENTITY.values() for v in vals] if _occurs(s, xml)] + \
+                         [s for s in IDENTITY if _occurs(s, xml, name=True)]
                 if leaked or _clear_assertions(xml):
                     violations.append({'name': 'bounded[issue-roundtrip:confidential-assertion]', 'case': label,
                                        'what': 'encryption of the assertion was asked for and the SP has a certificate, yet the emitted '
@@ -218,9 +218,34 @@ def run(tier, seed):
             'evaluations': n, 'unsupported_combinations_not_judged': unsupported, 'violations': violations[:30]}
 
 
-def _occurs(s, xml):
-    from xml.sax.saxutils import escape
-    return s in xml or escape(s) in xml or escape(s, {'"': '&quot;'}) in xml
+OPAQUE = ('CipherValue', 'X509Certificate', 'SignatureValue', 'DigestValue', 'Modulus', 'Exponent')
+
+
+def _clear_strings(xml):
+    """every text node and attribute value of the emitted message, except the base64 payloads (ciphertext, certificates,
+    signature and digest values) in which any short string may occur by chance"""
+    import xml.etree.ElementTree as ET
+    try:
+        root = ET.fromstring(xml.encode('utf-8'))
+    except ET.ParseError:
+        return [xml], [xml]
+    texts, attrs = [], []
+    for e in root.iter():
+        if e.tag.rsplit('}', 1)[-1] in OPAQUE:
+            continue
+        if e.text and e.text.strip():
+            texts.append(e.text)
+        if e.tail and e.tail.strip():
+            texts.append(e.tail)
+        attrs.extend(e.attrib.values())
+    return texts, attrs
+
+
+def _occurs(s, xml, name=False):
+    texts, attrs = _clear_strings(xml)
+    if name:                        # an attribute name is looked for as a whole XML attribute value (Name / FriendlyName)
+        return any(a == s for a in attrs)
+    return any(s in t for t in texts + attrs)
 
 
 def _clear_assertions(xml):
